@@ -182,28 +182,51 @@ local _lua_max_time = 60
 -- Lua sandbox.
 local _lua_current_max_time = nil
 
--- Reduces Lua timeout (used only for testing).  This is exposed to the
--- sandbox and may be called from hostile code.
+-- Number of nested _lua_invoke calls that are currently active.  Only the
+-- outermost one arms and clears the timeout hook: a nested #invoke (through
+-- frame:preprocess etc.) must neither restart the clock nor remove the hook
+-- of the invocation that is still running around it.
+local _lua_timeout_depth = 0
+
+-- Set by the hook once the time limit has been exceeded.  The sandboxed
+-- pcall/xpcall re-raise the timeout error while this is set, so that code
+-- wrapping its loop in pcall cannot swallow the abort.
+local _lua_timed_out = false
+
+-- Sets the time limit for the invocation being started.  NOT exposed to
+-- modules (_sandbox_phase2 captures it and removes it from the environment).
 local function _lua_set_timeout(timeout)
+    _lua_timeout_depth = _lua_timeout_depth + 1
+    if _lua_timeout_depth > 1 then
+        return
+    end
+    _lua_timed_out = false
     if timeout ~= nil and timeout > 0.01 and timeout < _lua_max_time then
         _lua_current_max_time = timeout
     else
         _lua_current_max_time = _lua_max_time
     end
     local start_time = os.time()
-    debug.sethook(
-        function()
-            if os.time() > start_time + _lua_current_max_time then
-                error("Lua timeout error")
+    local function hook()
+        if os.time() > start_time + _lua_current_max_time then
+            if not _lua_timed_out then
+                _lua_timed_out = true
+                -- check again soon: the error may be caught on its way up
+                debug.sethook(hook, "", 1000)
             end
-        end,
-        "",
-        100000
-    )
+            error("Lua timeout error")
+        end
+    end
+    debug.sethook(hook, "", 100000)
 end
 
 local function _lua_clear_timeout_hook()
-    debug.sethook()
+    _lua_timeout_depth = _lua_timeout_depth - 1
+    if _lua_timeout_depth <= 0 then
+        _lua_timeout_depth = 0
+        _lua_timed_out = false
+        debug.sethook()
+    end
 end
 
 -- Wiktionary uses a Module named "debug".  Force it to be loaded by
@@ -269,6 +292,23 @@ local _orig_tonumber = tonumber
 local _orig_type = type
 local _orig_unpack = unpack
 local _orig_xpcall = xpcall
+
+-- pcall/xpcall for the sandbox: like the originals, but a timeout of the
+-- running invocation is re-raised instead of being reported to the caller.
+local function _reraise_timeout(...)
+    if _lua_timed_out then
+        _orig_error("Lua timeout error", 0)
+    end
+    return ...
+end
+
+local function _sandbox_pcall(f, ...)
+    return _reraise_timeout(_orig_pcall(f, ...))
+end
+
+local function _sandbox_xpcall(f, handler)
+    return _reraise_timeout(_orig_xpcall(f, handler))
+end
 
 -- package is not really used anywhere in the Wiktionary module
 -- codebase, EXCEPT ja-translit uses package.loaders as a test
@@ -424,7 +464,7 @@ local function _lua_reset_env()
     env["_orig_next"] = _orig_next
     env["os"] = new_os
     env["pairs"] = _orig_pairs
-    env["pcall"] = _orig_pcall
+    env["pcall"] = _sandbox_pcall
     env["print"] = _orig_print
     env["rawequal"] = _orig_rawequal
     env["rawget"] = _orig_rawget
@@ -438,7 +478,9 @@ local function _lua_reset_env()
     env["tonumber"] = _orig_tonumber
     env["type"] = _orig_type
     env["unpack"] = _orig_unpack
-    env["xpcall"] = _orig_xpcall
+    env["xpcall"] = _sandbox_xpcall
+    -- Only for _sandbox_phase2, which removes it from the environment again
+    env["_raw_pcall"] = _orig_pcall
     env["_lua_set_python_loader"] = _lua_set_python_loader
     env["_lua_set_timeout"] = _lua_set_timeout
     env["_lua_clear_timeout_hook"] = _lua_clear_timeout_hook
